@@ -58,6 +58,7 @@ def dataOut : Except (DataErr String) (List (String × Json)) → Json
   | .error (.absence k) => err "absence" [("k", Json.str k)]
   | .error (.parse k) => err "parse" [("k", Json.str k)]
   | .error (.exceed k) => err "exceed" [("k", Json.str k)]
+  | .error .collected => err "collected"
 
 def kindOf (j : Json) : SeqKind :=
   match str! j with
@@ -132,6 +133,18 @@ def additionOf (j : Json) : Addition Json :=
 def dataOf (j : Json) : List (String × Json) :=
   (arr! j).map fun p => match arr! p with | [k, v] => (str! k, v) | _ => ("", Json.null)
 
+def propOf (j : Json) : OutProp String Json :=
+  { name := str! (fld j "name")
+    onError := optPolOf (fld j "on_error")
+    parse := optParserOf (fld j "table")
+    raw := fld j "raw" }
+
+def andThen (a : Except (DataErr String) (List (String × Json))) (b : Except (DataErr String) (List (String × Json))) :
+    Except (DataErr String) (List (String × Json)) :=
+  match a with
+  | .error e => .error e
+  | .ok l => b.map (l ++ ·)
+
 def handleSchema (j : Json) : Json :=
   let inv := polOf (fld j "inv")
   let fields := (arr! (fld j "fields")).map fieldOf
@@ -143,6 +156,12 @@ def handleSchema (j : Json) : Json :=
   let sfields := fields.map (Field.strictified inv)
   let spec := if bool! (fld j "dfs") then parseDataDF .throw sfields (a.strictified inv) fdata
               else parseDataFF .throw sfields (a.strictified inv) fdata
+  -- @property outputs are computed after the data is accepted (Schema.__post_init__); C11_props_general
+  let props := (arr! (fld j "props")).map propOf
+  let recs := (arr! (fld j "props")).filterMap fun q => if bool! (fld q "records") then some (str! (fld q "name")) else none
+  let model := andThen model (if bool! (fld j "legacy") then parsePropsLegacy inv (fun q => recs.contains q.name) props
+                              else parseProps inv props)
+  let spec := andThen spec (parseProps .throw ((props.filter fun q => !propExcluded inv q).map (OutProp.strictified inv)))
   Json.mkObj [("model", dataOut model), ("spec", dataOut spec)]
 
 def handleFunc (j : Json) : Json :=
